@@ -124,7 +124,6 @@ def leaf_spec_text():
     for op, nm in (('add', 'add_rem'), ('mul', 'mul_rem')):
         out.append('pub open spec fn %s(a: v1::Function, b: v1::Function, m: Map<u64, F64>) -> real {\n    match (a.function, b.function) {\n%s\n        _ => 0real,\n    }\n}\n' % (nm, arms(op)))
     out.append('pub open spec fn neg_rem(a: v1::Function, m: Map<u64, F64>) -> real { 0real }\n')
-    out.append('// observation: Quadratic::quad_iter asserts that the COO arrays have equal lengths (it panics otherwise)\npub open spec fn qcoo(q: v1::Quadratic) -> bool { q.columns.len() == q.rows.len() && q.columns.len() == q.values.len() }\npub open spec fn fn_coo_ok(f: v1::Function) -> bool { match f.function { Some(v1::function::Function::Quadratic(q)) => qcoo(q), _ => true } }\n')
     return ''.join(out)
 
 
